@@ -2,6 +2,7 @@ import MtailVerif.Driver.C08
 import MtailVerif.Driver.C15
 import MtailVerif.Driver.C09
 import MtailVerif.Driver.C21
+import MtailVerif.Driver.C10
 /-! `mtailmodel <prop>`: reads the case lines written by the Go harness on stdin and prints
     `<id> OBS <observation>` computed by the Lean model.  Core Lean only (links as an exe). -/
 open MtailVerif MtailVerif.Driver
@@ -12,6 +13,7 @@ def handlerFor (prop : String) : Option (List String → String) :=
   | "C15" => some C15.handle
   | "C09" => some C09.handle
   | "C21" => some C21.handle
+  | "C10" => some C10.handle
   | _ => none
 
 partial def loop (h : IO.FS.Stream) (out : IO.FS.Stream) (f : List String → String) : IO Unit := do
